@@ -381,6 +381,9 @@ pub struct Environment<E: Effect> {
     // Accumulated program state with full type information
     program: Program,
     process_router: HashMap<ProcessId, WorkerId>,
+    // Processes started through `start_process`: they sleep with a successful result between
+    // resumptions (REPL lines) and have not terminated then.
+    persistent_processes: HashSet<ProcessId>,
     pending_awaits: HashMap<ProcessId, PendingAwait>, // awaiter -> pending await state
     pending_requests: HashMap<u64, Option<RequestResult>>,
     // Maps aggregation_id -> Aggregation (either Statuses or ProcessTypes)
@@ -406,6 +409,7 @@ impl<E: Effect> Environment<E> {
             workers,
             program: Program::new(),
             process_router: HashMap::new(),
+            persistent_processes: HashSet::new(),
             pending_awaits: HashMap::new(),
             pending_requests: HashMap::new(),
             aggregations: HashMap::new(),
@@ -488,6 +492,7 @@ impl<E: Effect> Environment<E> {
         let worker_id = pid % self.workers.len(); // Round-robin
 
         self.process_router.insert(pid, worker_id);
+        self.persistent_processes.insert(pid);
         self.workers[worker_id]
             .send(Command::StartProcess {
                 id: pid,
@@ -1108,7 +1113,11 @@ impl<E: Effect> Environment<E> {
     ) -> Result<(), EnvironmentError> {
         // Clean up resources for any completed processes
         for (process_id, result) in &results {
-            if result.is_some() {
+            // A persistent process that reports a successful result is asleep, not terminated:
+            // the next line resumes it and it still owns what it has opened.
+            let asleep = matches!(result, Some(Ok(_)))
+                && self.persistent_processes.contains(process_id);
+            if result.is_some() && !asleep {
                 // Process has completed (success or failure) - clean up its resources
                 self.cleanup_process_resources(*process_id);
             }
